@@ -16,17 +16,15 @@ theorem addImplicit_evs (S : Schema) (cx : Cx) (sibs : List DNode) (n : DNode) :
   unfold addImplicit
   exact ⟨_, rfl⟩
 
-theorem foldl_addImplicit_evs (S : Schema) (cx : Cx) (k : STree) : ∀ (ds : List Bytes) (acc : List DNode × Out),
+theorem implLeafList_evs (S : Schema) (cx : Cx) (k : STree) : ∀ (ds : List Bytes) (acc : List DNode × Out),
     (∀ d ∈ ds, d ∈ k.info.dflts) → (∀ e ∈ acc.2.evs, IsImplicitOf k e) →
-    ∀ e ∈ (ds.foldl (fun (acc : List DNode × Out) d =>
-            let r := addImplicit S cx acc.1 (.term k.sid dfltFlags [] d)
-            (r.1, acc.2 ++ r.2)) acc).2.evs, IsImplicitOf k e := by
+    ∀ e ∈ (implLeafList S cx k.sid ds acc).2.evs, IsImplicitOf k e := by
   intro ds
   induction ds with
-  | nil => intro acc _ h; simpa using h
+  | nil => intro acc _ h; simpa [implLeafList] using h
   | cons d ds ih =>
     intro acc hd h
-    simp only [List.foldl_cons]
+    unfold implLeafList
     apply ih
     · intro d' hd'; exact hd d' (List.mem_cons_of_mem _ hd')
     · intro e he
@@ -41,6 +39,46 @@ theorem foldl_addImplicit_evs (S : Schema) (cx : Cx) (k : STree) : ∀ (ds : Lis
         · intro _; exact hd d (List.mem_cons_self ..)
         · intro h; cases h
 
+/-- one schema node: only a default leaf, default leaf-list instances or a non-presence container are created -/
+theorem implNode_evs (S : Schema) (o : VOpts) (cx : Cx) (k : STree) (sibs : List DNode) :
+    ∀ e ∈ (implNode S o cx k sibs).2.evs, IsImplicitOf k e := by
+  intro e he
+  unfold implNode at he
+  dsimp only at he
+  split at he
+  · simp at he
+  · cases hkind : k.info.kind with
+    | container =>
+      simp only [hkind] at he
+      split at he
+      · simp at he
+      · rename_i hp
+        obtain ⟨a, ha⟩ := addImplicit_evs S cx sibs (.inner k.sid dfltFlags [] [])
+        rw [ha] at he
+        simp only [List.mem_singleton] at he
+        subst he
+        refine ⟨rfl, rfl, rfl, rfl, rfl, ?_, ?_⟩
+        · intro h; cases h
+        · intro _; simp [STree.isNpCont, hkind, hp]
+    | leaf =>
+      simp only [hkind] at he
+      split at he
+      · rename_i d ds hd
+        obtain ⟨a, ha⟩ := addImplicit_evs S cx sibs (.term k.sid dfltFlags [] d)
+        rw [ha] at he
+        simp only [List.mem_singleton] at he
+        subst he
+        refine ⟨rfl, rfl, rfl, rfl, rfl, ?_, ?_⟩
+        · intro _; rw [hd]; exact List.mem_cons_self ..
+        · intro h; cases h
+      · simp at he
+    | leaflist =>
+      simp only [hkind] at he
+      exact implLeafList_evs S cx k k.info.dflts (sibs, {}) (fun d hd => hd) (by simp) e he
+    | list => simp [hkind] at he
+    | choice => simp [hkind] at he
+    | case => simp [hkind] at he
+
 /-- the non-choice nodes of a level: only default leaves, default leaf-list instances and non-presence containers are created -/
 theorem implNodes_evs (S : Schema) (o : VOpts) (cx : Cx) : ∀ (ks : List STree) (sibs : List DNode),
     ∀ e ∈ (implNodes S o cx ks sibs).2.evs, IsImplicit ks e := by
@@ -52,41 +90,7 @@ theorem implNodes_evs (S : Schema) (o : VOpts) (cx : Cx) : ∀ (ks : List STree)
     unfold implNodes at he
     simp only [Out.append_evs, List.mem_append] at he
     rcases he with he | he
-    · refine ⟨k, List.mem_cons_self .., ?_⟩
-      split at he
-      · simp at he
-      · rename_i hcond
-        cases hkind : k.info.kind with
-        | container =>
-          simp only [hkind] at he
-          split at he
-          · simp at he
-          · rename_i hp
-            obtain ⟨a, ha⟩ := addImplicit_evs S cx sibs (.inner k.sid dfltFlags [] [])
-            rw [ha] at he
-            simp only [List.mem_singleton] at he
-            subst he
-            refine ⟨rfl, rfl, rfl, rfl, rfl, ?_, ?_⟩
-            · intro h; cases h
-            · intro _; simp [STree.isNpCont, hkind, hp]; rfl
-        | leaf =>
-          simp only [hkind] at he
-          split at he
-          · rename_i d ds hd
-            obtain ⟨a, ha⟩ := addImplicit_evs S cx sibs (.term k.sid dfltFlags [] d)
-            rw [ha] at he
-            simp only [List.mem_singleton] at he
-            subst he
-            refine ⟨rfl, rfl, rfl, rfl, rfl, ?_, ?_⟩
-            · intro _; rw [hd]; exact List.mem_cons_self ..
-            · intro h; cases h
-          · simp at he
-        | leaflist =>
-          simp only [hkind] at he
-          exact foldl_addImplicit_evs S cx k k.info.dflts (sibs, {}) (fun d hd => hd) (by simp) e he
-        | list => simp [hkind] at he
-        | choice => simp [hkind] at he
-        | case => simp [hkind] at he
+    · exact ⟨k, List.mem_cons_self .., implNode_evs S o cx k sibs e he⟩
     · obtain ⟨k', hk', h⟩ := ih _ e he
       exact ⟨k', List.mem_cons_of_mem _ hk', h⟩
 
